@@ -293,7 +293,7 @@ inline void Exec::new_add(int ki, int ni, bool allow_bad) {
             // a deleted handle this vnacal_new_t still references is found in its own table -- either outcome
             for (size_t q = 0; q < K.params.size(); q++) if (K.params[q].deleted && K.params[q].h == a->raw[j] && N.registered.count((int)q)) { ex = XP_EITHER; why = "deleted-handle-still-referenced"; hist_sub_j = (int)j; hist_sub_q = (int)q; }
             // open finding rejected-standard-not-rolled-back: parameters of a REJECTED standard stay in the table too
-            for (size_t q = 0; q < K.params.size(); q++) if (ex == XP_FAIL && K.params[q].deleted && K.params[q].h == a->raw[j] && N.stale.count((int)q)) { ex = XP_EITHER; why = "deleted-handle-left-by-rejected-standard"; excl_unknown_rollback = true; }
+            for (size_t q = 0; q < K.params.size(); q++) if (ex == XP_FAIL && K.params[q].deleted && K.params[q].h == a->raw[j] && N.stale.count((int)q)) { ex = XP_EITHER; why = "deleted-handle-left-by-rejected-standard"; excl_unknown_rollback = true; hist_sub_j = (int)j; hist_sub_q = (int)q; }
             for (size_t q = 0; q < j; q++) if (a->pidx[q] >= 0 && !N.registered.count(a->pidx[q]) && K.params[a->pidx[q]].kind >= ParamRec::UNKNOWN) unknown_rollback_region = true;
             break;
         }
